@@ -281,7 +281,7 @@ def unpackCoilsFast (bytes : Bytes) (count : UInt16) (coils : List Bool) : Res (
 
 def Coils.fromBoolsFast (bools : List Bool) (target : Bytes) : Res Coils :=
   if bools.isEmpty then .err .bufferSize
-  else (packCoils bools target).map (fun r => { data := r.2, quantity := bools.length })
+  else (packCoils bools target).map (fun r => { data := r.2.take r.1, quantity := bools.length })
 
 @[csimp] theorem Coils.fromBools_eq_fast : @Coils.fromBools = @Coils.fromBoolsFast := rfl
 
